@@ -5,14 +5,6 @@ Open Scope Z_scope.
 
 Inductive case := Case (g : gtfcfg) (strat : strategy) (feats : list row) (impl : result tables).
 
-Fixpoint insert_row (x : row) (l : list row) : list row :=
-  match l with [] => [x] | y :: l' => if str_ltb (r_id x) (r_id y) then x :: l else y :: insert_row x l' end.
-Definition rows_by_id (l : list row) : list row := fold_right insert_row [] l.
-
-Definition st_matches_set (st : ist) (t : tables) : bool :=
-  list_eqb (row_eqb true) (rows_by_id (s_rows st)) (rows_by_id (t_rows t)) && rels_seteq (s_rels st) (t_rels t)
-  && pairs_seteq (s_dups st) (t_dups t) && counters_seteq (s_auto st) (t_auto t).
-
 Definition keys_of (k : str) (l : list row) : list str :=
   dedup_strs (flat_map (fun f => match first_val k f with Some v => [v] | None => [] end) l).
 
